@@ -4,7 +4,7 @@ RULE = ("grammar-generated well-formed btor2 files over the whole supported oper
         "constants in radix 2/10/16 incl. signed and short spellings, array read/write/ite/eq, init of arrays from bit-vectors) at widths "
         "1..200 (incl. 63..65, 127..129) and a small-width profile 1..4, with negated operand ids (1/5), random non-monotonic line ids, randomly "
         "interleaved line order respecting definition-before-use; 1/3 of them with one sort-/operand-/operator-breaking mutation; mutated and unmutated "
-        "shipped files (<= 300 lines; ALL 116 unmutated in the files stream); edge templates. Per accepted text 4 valuations (all zero, all ones, 2 random "
+        "an array-sort mutation (an array-valued line annotated with a DIFFERENT array sort) and an init/next-value mutation; shipped files (<= 300 lines; ALL 116 unmutated in the files stream); edge templates. Per accepted text 4 valuations (all zero, all ones, 2 random "
         "with corner values; arrays affine functions of the index) derived from the case's vseed. distinct = distinct texts")
 ASSUMPTIONS = [
     "Spec/Btor2Sem.v is the reference semantics of btor2 (written from the format definition; bit-vector operators are the SMT-LIB ones of Spec/BV.v); it shares only the lexical layer (tokens, number readers) with the model of the reader",
